@@ -36,8 +36,11 @@ def main():
         pkg = m.group(1).removesuffix("_test")
         pdir = PKGDIR.get(pkg)
         mc = re.match(r"//\s*copy to:\s*(\S+)", src)
-        if mc and os.path.isdir(os.path.join("/repo", mc.group(1).strip("/"))):
+        newdir = None
+        if mc and re.match(r"^[A-Za-z0-9_/.-]+$", mc.group(1)):
             pdir = mc.group(1).strip("/")
+            if not os.path.isdir(os.path.join("/repo", pdir)):
+                newdir = pdir
         if not pdir:
             print(sid, "SKIP: unknown package", pkg); continue
         tests = re.findall(r"^func (Test\w+)\(", src, re.M)
@@ -48,12 +51,16 @@ def main():
             print(sid, "REJECT: patch does not apply", out[:200]); continue
         rc, out = sh("go build ./... && go test -vet=off -count=1 ./...", cwd=SCRATCH)
         suite_ok = rc == 0
+        if newdir:
+            os.makedirs(os.path.join(SCRATCH, newdir), exist_ok=True)
         dst = os.path.join(SCRATCH, pdir, "zz_seed_demo_test.go")
         shutil.copy(demo, dst)
         rc_with, out_with = sh(f"go test -vet=off -count=1 -run '^({run})$' ./{pdir}/", cwd=SCRATCH, timeout=900)
         sh(f"git checkout -- . ", cwd=SCRATCH)
         rc_without, out_without = sh(f"go test -vet=off -count=1 -run '^({run})$' ./{pdir}/", cwd=SCRATCH, timeout=900)
         os.remove(dst)
+        if newdir:
+            shutil.rmtree(os.path.join(SCRATCH, newdir), ignore_errors=True)
         confirmed = suite_ok and rc_with != 0 and rc_without == 0
         # run every quick check against the patch applied to /repo
         caught = {}
